@@ -16,6 +16,7 @@ impl PlutusScripts {
     #[verifier::external_body] pub fn deserialize_with_version(raw: &mut Deserializer, version: &Language) -> (r: Result<PlutusScripts, DeserializeError>)
         requires old(raw).wf() ensures frame(*old(raw), *final(raw)), ps_post(old(raw).buf(), old(raw).pos(), final(raw).pos(), r, *version) { unimplemented!() }
 }
+#[verifier::opaque]
 pub open spec fn cap_ps(buf: Seq<u8>, v: Option<PlutusScripts>, rawb: Option<Vec<u8>>, lang: Language) -> bool {
     (v is Some <==> rawb is Some)
     && (v is Some ==> exists|a: nat| (#[trigger] decb_ps(buf, a, lang)) is Some && decb_ps(buf, a, lang)->Some_0.0 == v->Some_0 && a <= decb_ps(buf, a, lang)->Some_0.1 <= buf.len()
@@ -49,3 +50,8 @@ pub fn de_ps_v2(raw: &mut Deserializer) -> (r: Result<PlutusScripts, Deserialize
 pub fn de_ps_v3(raw: &mut Deserializer) -> (r: Result<PlutusScripts, DeserializeError>)
     requires old(raw).wf() ensures frame(*old(raw), *final(raw)), ps_post(old(raw).buf(), old(raw).pos(), final(raw).pos(), r, lang_v(3))
 { PlutusScripts::deserialize_with_version(raw, &Language::new_plutus_v3()) }
+pub proof fn lemma_cap_ps_intro(buf: Seq<u8>, v: PlutusScripts, bytes: Vec<u8>, a: nat, lang: Language)
+    requires decb_ps(buf, a, lang) is Some, decb_ps(buf, a, lang)->Some_0.0 == v, a <= decb_ps(buf, a, lang)->Some_0.1 <= buf.len(), bytes@ == buf.subrange(a as int, decb_ps(buf, a, lang)->Some_0.1 as int)
+    ensures cap_ps(buf, Some(v), Some(bytes), lang)
+{ reveal(cap_ps); }
+pub proof fn lemma_cap_ps_none(buf: Seq<u8>, lang: Language) ensures cap_ps(buf, None, None, lang) { reveal(cap_ps); }
